@@ -41,7 +41,7 @@ WIRE_FIELDS = ("url-path", "url-query", "req-header", "resp-header", "req-body",
                "resp-set-cookie")
 CTYPES = ["application/json", "text/plain", "application/octet-stream"]  # -> requests' encoding: utf-8, ISO-8859-1, None
 CLASS = {97: "alnum", 39: "squote", 34: "dquote", 92: "backslash", 58: "colon", 35: "hash", 10: "newline", 0: "nul",
-         8232: "u2028", 233: "latin1", 55296: "surrogate", 32: "space", 45: "dash", 123: "brace", 91: "bracket", 128512: "astral", 1: "c0-control"}
+         8232: "u2028", 233: "latin1", 55296: "surrogate", 32: "space", 45: "dash", 123: "brace", 91: "bracket", 128512: "astral", 1: "c0-control", 133: "nel", 156: "c1-control"}
 _state: dict = {}
 
 
@@ -260,7 +260,7 @@ def build_events(st, events_desc: list[dict]):
             out.append(ev.NonFatalError(error=RuntimeError("boom %d" % k), phase=phase, label=e["label"], related_to_operation=True))
             continue
         status, cases = SHAPES[e["shape"]]
-        rec = st["Recorder"](label=e["label"])
+        rec = st["Recorder"](label=e["label"])  # a final scenario (Reports!CanBeFinal) carries a recorder like any other
         for c, (resp, checks) in enumerate(cases, 1):
             if resp is None:  # the case is recorded, nothing was sent / the transport failed without a prepared request to keep
                 lost = st["op"].Case(meta=st["meta"](META[e["phase"]], "d"))
@@ -277,7 +277,7 @@ def build_events(st, events_desc: list[dict]):
         out.append(ev.ScenarioFinished(
             id=uuid.uuid4(), phase=phase, suite_id=suite, label=None if e["label"] == "Stateful tests" else e["label"],
             status=Status[status], recorder=rec, elapsed_time=0.01, skip_reason="why" if e["shape"] == "skip" else None,
-            is_final=False))
+            is_final=bool(e.get("final", False))))
     out.append(ev.EngineFinished(running_time=0.1))
     return out, exch
 
@@ -443,6 +443,8 @@ def py_vcr_ok(text: str | None, exch: list[dict], entries: list[dict], preserve:
     import yaml
 
     if text is None:
+        return False
+    if "\x85" in text or "\r" in text:  # PyYAML folds these breaks inside quotes; the one-line emitter grammar (ReportsYaml!Inline) has none
         return False
     try:
         doc = yaml.load(text, Loader=yaml.SafeLoader)  # the pure-Python loader the TLA+ scanners are cross-checked against
@@ -721,8 +723,8 @@ def variants(field: str, length: int = 0, max_len: int = 3) -> list[dict]:
     out = [plain] if field not in ("req-form",) else []
     if field in ("req-body", "resp-body"):
         out.append(dict(plain, preserve=True))
-    if field in ("url-path", "url-query", "command", "url-userinfo"):
-        out.append(dict(plain, sanitize=True))
+    if field in ("url-path", "url-query", "command", "url-userinfo", "req-header", "resp-header"):
+        out.append(dict(plain, sanitize=True))  # headers: a name that is not sanitised, every character class of the value
     if field in WIRE_FIELDS:
         out.append(dict(plain, wire=True, ctype=length % 3))
         if field == "resp-body":
@@ -767,7 +769,7 @@ def observe_string(case: dict) -> dict:
     elif field == "cov-description":
         kw["cov_desc"] = s
     elif field == "reason":
-        if not latin1_line:
+        if not latin1_line or s != s.strip():  # http.client strips the status line's reason with str.strip() (NEL is white space there)
             return {"skip": "reason phrase not receivable"}
         kw["reason"] = s
     elif field == "req-form":
@@ -1219,7 +1221,7 @@ def run(ctx: Ctx) -> Outcome:
             by_sig.setdefault(history_signature(h, o, comp, n, tg), []).append((comp, n, tg))
         for sig, items in by_sig.items():
             out.violations.append(Violation(sig, "history %s: %s" % (
-                " ; ".join("%s(%s,%s,%s)" % (e["kind"], e["label"], e["phase"], e["shape"]) for e in h["events"]),
+                " ; ".join("%s(%s,%s,%s%s)" % (e["kind"], e["label"], e["phase"], e["shape"], ",final" if e.get("final") else "") for e in h["events"]),
                 ", ".join("%s[%s]:%s" % it for it in items[:4])), {"kind": "history", "history": h}))
 
     # ---- (b) emitter grammar ---------------------------------------------------------------------------------
@@ -1347,7 +1349,10 @@ def _count(items) -> dict:
 
 def _line_key(line: list[int]) -> str:
     """Key of a malformed line = its mapping key (text up to the first ':'), so one broken construct = one class."""
-    text = "".join(map(chr, line)).strip().lstrip("- ")
+    text = "".join(map(chr, line)).strip()
+    if text.startswith('- "'):  # a scalar sequence entry (header value): it has no key of its own
+        return "seq-item"
+    text = text.lstrip("- ")
     return text.split(":")[0][:24] or "?"
 
 
@@ -1376,8 +1381,8 @@ def replay(ctx: Ctx, data: dict) -> Outcome:
 
 def selftest(ctx: Ctx) -> bool:
     """Binding: corrupted recordings must be rejected by the TLA+ judges, the untouched ones accepted."""
-    h = {"events": [{"kind": "SF", "label": "GET /a", "phase": 3, "shape": "f1"},
-                    {"kind": "SF", "label": "GET /a", "phase": 3, "shape": "ok"}]}
+    h = {"events": [{"kind": "SF", "label": "GET /a", "phase": 3, "shape": "f1", "final": False},
+                    {"kind": "SF", "label": "GET /a", "phase": 3, "shape": "ok", "final": False}]}
     good = observe_history(h)
     if good["crashAt"] or good["vcr"] is None:
         print("selftest: baseline history did not produce reports:", good["crashSite"])
